@@ -266,3 +266,102 @@ pub fn run_slice(input: &[u8], cfg: u8, extra: usize, out: &mut Vec<Obs>) {
         });
     }
 }
+
+// ------------------------------------------------------------------------------------------------
+// Running the buffered and the async reader over a scripted source
+
+use crate::env::{block_on, Script, Source};
+
+#[derive(Default, Clone, Debug)]
+pub struct RunInfo {
+    /// fill_buf calls made by the reader
+    pub fill_calls: usize,
+    pub faults_fired: usize,
+    pub misuse: Option<String>,
+    pub stuck: bool,
+}
+
+/// Reads with `Reader::read_event_into` over a scripted `BufRead`.
+/// Stops after the first `Eof` (+`extra` calls) or after the first non-IllFormed error when
+/// `stop_at_error` is set (C18: nothing is asserted about calls after an I/O error).
+pub fn run_buffered(input: &[u8], cfg: u8, script: &Script, extra: usize, stop_at_error: bool, out: &mut Vec<Obs>) -> RunInfo {
+    out.clear();
+    let mut info = RunInfo::default();
+    let r = guarded_mut(|| {
+        let mut reader = Reader::from_reader(Source::new(input, script));
+        apply_cfg(reader.config_mut(), cfg);
+        let cap = 2 * input.len() + 8 + 2 * script.faults.len();
+        let mut after_eof = 0;
+        let mut buf = Vec::new();
+        for _ in 0..cap + extra {
+            buf.clear();
+            let r = reader.read_event_into(&mut buf);
+            let ev = Ev::from_result(&r);
+            drop(r);
+            let eof = ev == Ev::Eof;
+            let fatal = matches!(&ev, Ev::Err(e) if !e.is_illformed());
+            out.push(Obs { ev, pos: reader.buffer_position(), err_pos: reader.error_position() });
+            if fatal && stop_at_error {
+                break;
+            }
+            if eof {
+                if after_eof == extra {
+                    break;
+                }
+                after_eof += 1;
+            }
+        }
+        let src = reader.get_ref();
+        info.fill_calls = src.calls;
+        info.faults_fired = src.faults_fired;
+        info.misuse = src.misuse.clone();
+    });
+    if let Err(p) = r {
+        out.push(Obs { ev: Ev::Err(E::Panic(p)), pos: 0, err_pos: 0 });
+    }
+    info
+}
+
+/// Reads with `Reader::read_event_into_async` over a scripted `AsyncBufRead`, polling by hand.
+pub fn run_async(input: &[u8], cfg: u8, script: &Script, extra: usize, stop_at_error: bool, out: &mut Vec<Obs>) -> RunInfo {
+    out.clear();
+    let mut info = RunInfo::default();
+    let r = guarded_mut(|| {
+        let mut reader = Reader::from_reader(Source::new(input, script));
+        apply_cfg(reader.config_mut(), cfg);
+        let cap = 2 * input.len() + 8 + 2 * script.faults.len();
+        let horizon = input.len() + script.faults.len() + 16;
+        let mut after_eof = 0;
+        let mut buf = Vec::new();
+        for _ in 0..cap + extra {
+            buf.clear();
+            let ev = match block_on(reader.read_event_into_async(&mut buf), horizon) {
+                Some(r) => Ev::from_result(&r),
+                None => {
+                    info.stuck = true;
+                    break;
+                }
+            };
+            let eof = ev == Ev::Eof;
+            let fatal = matches!(&ev, Ev::Err(e) if !e.is_illformed());
+            out.push(Obs { ev, pos: reader.buffer_position(), err_pos: reader.error_position() });
+            if fatal && stop_at_error {
+                break;
+            }
+            if eof {
+                if after_eof == extra {
+                    break;
+                }
+                after_eof += 1;
+            }
+        }
+        let src = reader.get_ref();
+        info.fill_calls = src.calls;
+        info.faults_fired = src.faults_fired;
+        info.misuse = src.misuse.clone();
+    });
+    if let Err(p) = r {
+        out.push(Obs { ev: Ev::Err(E::Panic(p)), pos: 0, err_pos: 0 });
+    }
+    info
+}
